@@ -80,6 +80,10 @@ def configs(ctx):
         out.append(optrun.strict_rule_config(rng, optimiser=['evo', 'pop_random_mutation'][j % 2]))
     for j in range(ctx.budget(4, 20)):
         out.append(optrun.invalid_initial_config(rng))
+    for j in range(ctx.budget(4, 24)):
+        out.append(optrun.rerun_config(rng))
+    for j in range(ctx.budget(4, 24)):
+        out.append(optrun.failing_start_config(rng))
     return out
 
 
